@@ -17,7 +17,7 @@ CACHE = os.path.join(VERIF, ".cache")
 EVIDENCE = os.path.join(VERIF, "evidence")
 REPLAYS = os.path.join(VERIF, "replays")
 DRIVER = os.path.join(LEAN_DIR, ".lake", "build", "bin", "driver")
-VH = os.path.join(HARNESS_DIR, "target", "release", "vh")
+VH = os.environ.get("VERIF_VH") or os.path.join(HARNESS_DIR, "target", "release", "vh")   # VERIF_VH: an instrumented build (tools/coverage.sh)
 REPO_TARGET = os.path.join(CACHE, "repo-target")
 GUARD = "crustabri_verif"
 ALLOWED_AXIOMS = {"propext", "Classical.choice", "Quot.sound"}
